@@ -9,7 +9,8 @@ Local Open Scope Z_scope.
 
 Inductive xevent :=
 | XWrite (r : record) (now : name)
-| XDelete (b0 b1 : name) (before : list name) (outs : fsys) (after : list name).
+| XDelete (b0 b1 : name) (before : list name) (outs : fsys) (after : list name)
+| XRestart (rot0 now0 : name).
 
 Record case := mkcase {
   k_cfg : config;
@@ -18,6 +19,8 @@ Record case := mkcase {
   k_now0 : name;
   k_events : list xevent;
   k_final : fsys;                 (* observed directory after Close and the last clean-up *)
+  k_setup : option setup;         (* configuration stream: the logx.Config the rule was built from by
+                                     newFileWriter/createOutput; k_cfg is then the rule OBSERVED on the logger *)
   k_front_ok : bool               (* front-end stream: every record reached RotateLogger.Write as exactly one
                                      slice holding its well-formed encoding (Spec.frontend_ok); true otherwise *)
 }.
@@ -36,10 +39,19 @@ Definition fs_eqb (a b : fsys) : bool :=
   forallb (fun n => option_eqb file_eqb (fs_get n a) (fs_get n b)) (ls a).
 
 (* ---- the driver's schedule on the model *)
+(* directory entries that are no regular files are listed with a layer count >= 77 (77 directory,
+   78 symlink to /dev/full); os.Create / writing of F.gz fails on them *)
+Definition obstacle (n : name) (fs : fsys) : bool :=
+  match fs_get n fs with Some (_, d) => (77 <=? d)%nat | None => false end.
+
 Definition write_and_compress (c : config) (s : state) (r : record) (now : name) : state :=
   let s' := step c s (EWrite r now) in
-  if (List.length (s_posts s) <? List.length (s_posts s'))%nat
-  then step c s' (EGzip (List.length (s_posts s))) else s'.
+  let k := List.length (s_posts s) in
+  match nth_error (s_posts s') k with
+  | Some (f, _) =>
+      if obstacle (f ++ gzip_ext) (s_fs s') then step c s' (EGzipFail k None) else step c s' (EGzip k)
+  | None => s'
+  end.
 
 Fixpoint first_phase1 (l : list (name * nat)) (i : nat) : option nat :=
   match l with
@@ -60,6 +72,7 @@ Fixpoint model_run (c : config) (s : state) (evs : list xevent) : option state :
   match evs with
   | [] => Some s
   | XWrite r now :: rest => model_run c (write_and_compress c s r now) rest
+  | XRestart rot0 now0 :: rest => model_run c (step c s (ERestart rot0 now0)) rest
   | XDelete b0 b1 before outs after :: rest =>
       match first_phase1 (s_posts s) 0 with
       | None => None
@@ -88,7 +101,17 @@ Definition wrecs (evs : list xevent) : content :=
 Definition graveyard (evs : list xevent) : fsys :=
   flat_map (fun e => match e with XDelete _ _ _ outs _ => outs | _ => [] end) evs.
 Definition stamps (k : case) : list name :=
-  k_now0 k :: flat_map (fun e => match e with XWrite _ now => [now] | _ => [] end) (k_events k).
+  k_now0 k :: flat_map (fun e => match e with XWrite _ now => [now] | XRestart _ now0 => [now0] | _ => [] end) (k_events k).
+
+(* the configuration the property speaks of: the configured one when the case went through logx.Config *)
+Definition spec_cfg (k : case) : config :=
+  match k_setup k with Some u => rule_of_config (c_file (k_cfg k)) u | None => k_cfg k end.
+
+Definition cfg_eqb (a b : config) : bool :=
+  match c_kind a, c_kind b with Daily, Daily | SizeLimit, SizeLimit => true | _, _ => false end &&
+  name_eqb (c_file a) (c_file b) && name_eqb (c_delim a) (c_delim b) && (c_days a =? c_days b) &&
+  Bool.eqb (c_gzip a) (c_gzip b) && Bool.eqb (c_compress a) (c_compress b) &&
+  (c_max_size a =? c_max_size b) && (c_max_backups a =? c_max_backups b).
 
 Definition is_w (w : content) (r : record) : bool := existsb (fun x => Nat.eqb (rid x) (rid r)) w.
 Definition w_part (w : content) (f : name * file) : content := filter (is_w w) (fst (snd f)).
@@ -116,14 +139,14 @@ Definition once_complete (w : content) (all : fsys) : bool :=
                     end) w.
 
 Definition in_order (k : case) (w : content) (all : fsys) : bool :=
-  let cur := c_file (k_cfg k) in
+  let cur := c_file (spec_cfg k) in
   let backups := sort_entries (filter (fun f => negb (name_eqb (fst f) cur)) all) in
   let current := filter (fun f => name_eqb (fst f) cur) (k_final k) in
   list_eqb rec_eqb (flat_map (w_part w) (backups ++ current)) w.
 
 (* (2) size rule: a file the writer appended to exceeds the limit by at most its last record *)
 Definition overshoot_ok (k : case) (w : content) (all : fsys) : bool :=
-  let c := k_cfg k in
+  let c := spec_cfg k in
   match c_kind c with
   | Daily => true
   | SizeLimit =>
@@ -162,10 +185,12 @@ Definition delete_spec (c : config) (b0 b1 : name) (before : list name) (outs : 
   mem (c_file c) after.
 
 Definition spec_ok (k : case) : bool :=
-  let c := k_cfg k in
+  let c := spec_cfg k in
   let w := wrecs (k_events k) in
   let all := graveyard (k_events k) ++ k_final k in
   k_front_ok k &&
+  (* the configured numbers reached the rule unchanged *)
+  cfg_eqb c (k_cfg k) &&
   once_complete w all &&
   (if nondecreasing (stamps k) then in_order k w all else true) &&
   overshoot_ok k w all &&
